@@ -30,6 +30,12 @@ def gen(rng, tier):
     for j in range(8):
         c2 = bytearray(ctx); c2[j] ^= 1
         cs.append(Case("kdf 32 %s %s %s" % (hx((1).to_bytes(8, "little")), hx(bytes(c2)), hx(key)), cls="kdf/distinct", meta={"distinct": True}))
+    # degenerate operands: all-zero main key, contexts and ids whose bytes cancel under xor, interior zero bytes
+    for key in (bytes(32), b"\xff" * 32, bytes(31) + b"\x01"):
+        for ctx in (bytes(8), b"testtest", b"abcdabcd", b"AAAAAAAA", b"ab\x00cdefg", b"\x00" * 7 + b"\x01"):
+            for sid in (0, 257, 514, 0x1111, 0x0101010101010101, 2 ** 64 - 1, 2 ** 32, 2 ** 32 + 1):
+                for ln in (16, 32, 64):
+                    cs.append(Case("kdf %d %s %s %s" % (ln, hx(sid.to_bytes(8, "little")), hx(ctx), hx(key)), cls="kdf/degenerate"))
     return cs
 
 
